@@ -33,6 +33,9 @@ def main(tier, seed):
     # (iii) the diagnostics query hands the parser's error ranges through unchanged
     from . import diagk
     diagk.part(chk, tier, jobs)
+    # (iv) document highlights are ranges of the queried file only
+    from . import hlk
+    hlk.part(chk, tier, jobs)
     chk.assumptions += synrun.SYN_ASSUMPTIONS + [
         'kernel claim: only ranges produced by the parser (syntax errors) and the offset->position conversion of outgoing ranges are decided; '
         'ranges computed by ide queries (navigation targets, references, rename edits, completion source ranges, highlights) need the salsa database and rowan cursors and are outside the claim']
